@@ -33,3 +33,8 @@ package keys
 //@ assume func (Address).String
 //@   modifies nothing
 //@   ensures result == addrStr(str(a)) && addrOfStr(result) == str(a)
+
+// Humanize lower-cases the hex form; hex.EncodeToString is already lower case, so Humanize == String (assumed)
+//@ assume func (Address).Humanize
+//@   modifies nothing
+//@   ensures result == addrStr(str(a)) && addrOfStr(result) == str(a)
